@@ -86,6 +86,32 @@ Theorem C29_pcm_accept_iff :
 Proof. exact @pcm_accept_iff. Qed.
 Print Assumptions C29_pcm_accept_iff.
 
+(* statelessness over call sequences on one decoded part / proof object: the
+   verdict of the k-th call equals the verdict of a fresh call with the k-th
+   decision — no replay of an accepted part for another decision *)
+Theorem C29_verify_stateless :
+  forall (sigT addrT : Type) (addr_eqb : addrT -> addrT -> bool)
+         (recover : decision -> sigT -> option addrT),
+  forall (vals : list (option addrT)) idx (s : option sigT) (sigs : list (option sigT)) ds k d,
+    nth_error ds k = Some d ->
+    nth_error (part_session addr_eqb recover vals idx s ds) k = Some (verify_part addr_eqb recover d vals idx s) /\
+    nth_error (verify_session addr_eqb recover vals sigs ds) k = Some (verify addr_eqb recover d vals sigs).
+Proof.
+  intros. split; [apply part_session_stateless|apply verify_session_stateless]; assumption.
+Qed.
+Print Assumptions C29_verify_stateless.
+
+Theorem C29_no_replay_across_decisions :
+  forall (sigT addrT : Type) (addr_eqb : addrT -> addrT -> bool)
+         (recover : decision -> sigT -> option addrT),
+    (forall a b, addr_eqb a b = true <-> a = b) ->
+  forall (vals : list (option addrT)) idx (s : option sigT) ds k d i,
+    nth_error ds k = Some d ->
+    nth_error (part_session addr_eqb recover vals idx s ds) k = Some (Some i) ->
+    exists sg, s = Some sg /\ part_ok recover d vals i sg.
+Proof. exact @part_session_no_replay. Qed.
+Print Assumptions C29_no_replay_across_decisions.
+
 (* with the signature ground truth of the correspondence run *)
 Theorem C29_accept_iff_ground_truth :
   forall d (vals : list (option nat)) (sigs : list (option bsig)),
